@@ -71,6 +71,143 @@ func (c *fnCtx) funcNilTest(b *ast.BinaryExpr) (string, bool) {
 	return "(negb " + c.nilFlags[o].name + ")", true
 }
 
+// iterMethodType: the signature by which an ITERATOR method of an object field is represented:
+//   func (t *Tree[T]) InorderAfter(key T) iter.Seq[T]   ->  func(key T) []T
+//   func (t *Tree[T]) Inorder(yield func(T) bool)        ->  func() []T
+// (the list of the values it yields, in order; a loop that stops early leaves the rest
+// unconsumed).  nil for any other signature.
+func iterMethodType(ft *ast.FuncType) *ast.FuncType {
+	if r := ft.Results; r != nil && len(r.List) == 1 && len(r.List[0].Names) == 0 {
+		if ix, ok := r.List[0].Type.(*ast.IndexExpr); ok {
+			if sel, ok := ix.X.(*ast.SelectorExpr); ok && sel.Sel.Name == "Seq" {
+				if id, ok := sel.X.(*ast.Ident); ok && id.Name == "iter" {
+					cp := *ft
+					cp.Results = &ast.FieldList{List: []*ast.Field{{Type: &ast.ArrayType{Elt: ix.Index}}}}
+					return &cp
+				}
+			}
+		}
+		return nil
+	}
+	if ft.Results != nil && len(ft.Results.List) > 0 {
+		return nil
+	}
+	ps := ft.Params.List
+	if len(ps) == 0 || len(ps[len(ps)-1].Names) > 1 {
+		return nil
+	}
+	yt, ok := ps[len(ps)-1].Type.(*ast.FuncType)
+	if !ok || yt.Params == nil || yt.Params.NumFields() != 1 || yt.Results == nil || yt.Results.NumFields() != 1 {
+		return nil
+	}
+	if id, ok := yt.Results.List[0].Type.(*ast.Ident); !ok || id.Name != "bool" {
+		return nil
+	}
+	cp := *ft
+	cp.Params = &ast.FieldList{List: ps[:len(ps)-1]}
+	cp.Results = &ast.FieldList{List: []*ast.Field{{Type: &ast.ArrayType{Elt: yt.Params.List[0].Type}}}}
+	return &cp
+}
+
+// objIterOperand: the operand of `for v := range X` when X is an iterator method of an object field
+// of the receiver: the method value r.f.M, or the call r.f.M(args).  Returns the field, the
+// method and the arguments.
+func objIterOperand(x ast.Expr, isRecv func(ast.Expr) bool) (string, string, *ast.CallExpr) {
+	call, isCall := x.(*ast.CallExpr)
+	if isCall {
+		x = call.Fun
+	}
+	sel, ok := x.(*ast.SelectorExpr)
+	if !ok {
+		return "", "", nil
+	}
+	inner, ok := sel.X.(*ast.SelectorExpr)
+	if !ok || !isRecv(inner.X) {
+		return "", "", nil
+	}
+	if !isCall {
+		call = &ast.CallExpr{Fun: sel, Lparen: sel.End(), Rparen: sel.End()}
+	}
+	return inner.Sel.Name, sel.Sel.Name, call
+}
+
+// objSeqRange: `for v := range r.f.M` / `for v := range r.f.M(args)` over an iterator method of an
+// object field: the method is the function argument f_M : St -> args -> res (list X * St), the
+// list of the values the iterator yields, obtained BEFORE the loop; the loop is a range over that
+// list (as for an iter.Seq parameter: an iterator is code, what else it does while it yields is
+// outside the representation).
+func (c *fnCtx) objSeqRange(v *ast.RangeStmt, pre *[]fnBind) *ast.RangeStmt {
+	f, m, call := objIterOperand(v.X, c.isRecv)
+	if call == nil || c.objs[f] == nil || c.fields[f] == nil {
+		return nil
+	}
+	fv := c.fields[f]
+	ft := c.objMethodType(fv, m, v)
+	o := c.objOf(fv)
+	if !o.seqRes[m] {
+		c.lostAt(v, "range over %s.%s (not an iterator method)", f, m)
+	}
+	if v.Value != nil || v.Tok != token.DEFINE {
+		c.lostAt(v, "range over the iterator %s.%s with two variables", f, m)
+	}
+	if c.seqLoops == nil {
+		c.seqLoops = map[*ast.RangeStmt]*ast.RangeStmt{}
+		c.seqLists = map[*ast.RangeStmt]*fnVar{}
+	}
+	rw := c.seqLoops[v]
+	if rw == nil {
+		w := c.newVar(f+"_"+m+"_seq", ft.res[0], "local")
+		w.pos = v.Pos()
+		obj := ast.NewObj(ast.Var, w.name)
+		c.vars[obj] = w
+		w.obj = obj
+		lid := &ast.Ident{Name: w.name, NamePos: v.X.Pos(), Obj: obj}
+		rw = &ast.RangeStmt{For: v.For, Key: &ast.Ident{Name: "_", NamePos: v.For}, Value: v.Key, TokPos: v.TokPos, Tok: v.Tok, Range: v.Range, X: lid, Body: v.Body}
+		if v.Key == nil {
+			rw.Key, rw.Value, rw.Tok = nil, nil, token.ILLEGAL
+		}
+		c.seqLoops[v], c.seqLists[v] = rw, w
+	}
+	c.objCall(fv, m, call, pre, []string{c.seqLists[v].name})
+	return rw
+}
+
+// objFieldStore: an assignment to an object field of the receiver.  Only two values keep the
+// representation exact (nobody else holds them): `r.f = nil` (the function argument f_nilptr : St_f,
+// "the nil pointer of that type") and `r.f = r.g.M(args)` where M hands back a NEW object of f's kind
+// (the result is bound to the field's state).  Anything else -> lost (aliasing).
+func (c *fnCtx) objFieldStore(st *ast.AssignStmt, l, r ast.Expr, k func() term) (term, bool) {
+	sel, ok := l.(*ast.SelectorExpr)
+	if !ok || !c.isRecv(sel.X) || c.objs[sel.Sel.Name] == nil {
+		return nil, false
+	}
+	f := sel.Sel.Name
+	fv := c.fields[f]
+	if fv == nil || st.Tok != token.ASSIGN {
+		c.lostAt(st, "assignment to the object field %s", f)
+	}
+	var pre []fnBind
+	if id, isId := r.(*ast.Ident); isId && id.Name == "nil" && id.Obj == nil {
+		x := c.extras["objnilval:"+f]
+		if x == nil {
+			c.lostAt(st, "nil stored into the object field %s here", f)
+		}
+		pre = append(pre, fnBind{pat: fv.name, e: x.name, isLet: true, effect: true})
+		return wrap(pre, k()), true
+	}
+	if call, isCall := r.(*ast.CallExpr); isCall {
+		if fv2, m := c.objCallOf(call); fv2 != nil {
+			ft := c.objMethodType(fv2, m, call)
+			if len(ft.res) == 1 && ft.res[0] == fv.typ {
+				c.objCall(fv2, m, call, &pre, []string{fv.name})
+				return wrap(pre, k()), true
+			}
+		}
+	}
+	c.lostAt(st, "value %s stored into the object field %s (only nil or a new object handed back by a method of another object field: aliasing)", src(r), f)
+	return nil, false
+}
+
 // returnsOnlyRecv: every return statement of the method returns the receiver identifier.
 func returnsOnlyRecv(fd *ast.FuncDecl) bool {
 	if fd.Recv == nil || len(fd.Recv.List) == 0 || len(fd.Recv.List[0].Names) == 0 || fd.Body == nil {
